@@ -113,7 +113,7 @@ class Main(pipeline.Stream):
         cases = []
         errors = error_pool()
         results = RESULTS_QUICK if tier == "quick" else RESULTS_ALL
-        paths = [("check",), ("proxy",), ("multi", 0, 0), ("multi", 2, 1), ("iter", 1, 1)]
+        paths = [("check",), ("proxy",), ("notify",), ("multi", 0, 0), ("multi", 2, 1), ("iter", 1, 1)]
         for e, env_form, res in itertools.product(errors, ENVELOPES, results):
             reply = build_reply(env_form, e, res)
             for p in paths:
@@ -140,6 +140,11 @@ class Main(pipeline.Stream):
         if p[0] == "proxy":
             proxy = J.ServerProxy("http://localhost/", transport=LoopbackReply(json.dumps(reply)))
             return [outcome(lambda: proxy.some_method(1, 2))]
+        if p[0] == "notify":
+            # a notification call: a server may still answer it (a 1.0 server, a foreign server): an error in that
+            # answer must surface like any other
+            proxy = J.ServerProxy("http://localhost/", transport=LoopbackReply(json.dumps(reply)))
+            return [outcome(lambda: proxy._notify.some_method(1, 2))]
         pre, post = p[1], p[2]
         batch = [OKREPLY] * pre + [reply] + [OKREPLY] * post
         proxy = J.ServerProxy("http://localhost/", transport=LoopbackReply(json.dumps(batch)))
@@ -211,7 +216,7 @@ class Main(pipeline.Stream):
         if ("error" not in reply or err is None) and "result" in reply:
             if o[0] != "ok":
                 return ("C06:result-not-returned", "no error, result %r, but %s raised" % (reply["result"], type(o[1]).__name__))
-            want = reply if p[0] == "check" else reply["result"]
+            want = reply if p[0] == "check" else (None if p[0] == "notify" else reply["result"])
             if not V.same(o[1], want):
                 return ("C06:result-changed", "result %r came back as %r" % (want, o[1]))
         return None
@@ -227,6 +232,8 @@ class Main(pipeline.Stream):
             gp = "PCheck"
         elif p[0] == "proxy":
             gp = "PProxy"
+        elif p[0] == "notify":
+            gp = "PNotify"
         else:
             gp = "(%s %s %s)" % ("PMulti" if p[0] == "multi" else "PIter", G.g_list([ok] * p[1]), G.g_list([ok] * p[2]))
         return "(%s, %s, %s)" % (gp, G.g_val(reply), G.g_list([G.g_res(o) for o in obs]))
